@@ -72,6 +72,21 @@ Ltac nsimpl :=
   rewrite ?st_count_done, ?ph_count_done, ?rc_count_done, ?att_count_done, ?stale_count_done, ?outs_count_done in *;
   cbn [st ph rc att dc stale outs with_st with_ph inc_dc] in *.
 
+Ltac inv_guard H :=
+  repeat match type of H with
+  | (if ?b then _ else _) = Some _ => let E := fresh "G" in destruct b eqn:E; [|discriminate H]
+  | match ?x with _ => _ end = Some _ => let E := fresh "M" in destruct x eqn:E; try discriminate H
+  end.
+
+Ltac split_guard :=
+  repeat match goal with
+  | H : _ && _ = true |- _ => apply andb_true_iff in H; destruct H
+  | H : (_ <? _) = true |- _ => apply Nat.ltb_lt in H
+  | H : nstatus_eqb _ _ = true |- _ => apply nstatus_eqb_eq in H
+  | H : negb _ = true |- _ => apply negb_true_iff in H
+  | H : (_ =? _) = true |- _ => apply Nat.eqb_eq in H
+  end.
+
 Section Inv.
 Variable c : cfg.
 Notation n := (nsteps c).
@@ -150,21 +165,6 @@ Notation n := (nsteps c).
 Notation step := (step c).
 Notation Inv := (Inv c).
 Notation okterm := (okterm c).
-
-Ltac inv_guard H :=
-  repeat match type of H with
-  | (if ?b then _ else _) = Some _ => let E := fresh "G" in destruct b eqn:E; [|discriminate H]
-  | match ?x with _ => _ end = Some _ => let E := fresh "M" in destruct x eqn:E; try discriminate H
-  end.
-
-Ltac split_guard :=
-  repeat match goal with
-  | H : _ && _ = true |- _ => apply andb_true_iff in H; destruct H
-  | H : (_ <? _) = true |- _ => apply Nat.ltb_lt in H
-  | H : nstatus_eqb _ _ = true |- _ => apply nstatus_eqb_eq in H
-  | H : negb _ = true |- _ => apply negb_true_iff in H
-  | H : (_ =? _) = true |- _ => apply Nat.eqb_eq in H
-  end.
 
 (* the outcome of the error switch, case by case (repeat excluded, done channel present) *)
 Inductive after_case (s : state) (i : nat) : bool -> bool -> state -> Prop :=
